@@ -8,7 +8,7 @@ namespace HqModel.Core
 
 /-! ### `on_new_tasks` -/
 
-theorem registerDeps_spec (id : TaskId) (deps : List TaskId) (ts : List Task) :
+theorem registerDeps_specSys (id : TaskId) (deps : List TaskId) (ts : List Task) :
     ∀ t' ∈ (registerDeps ts id deps).1, ∃ t ∈ ts, t'.id = t.id ∧ t'.state = t.state ∧
       ∀ c ∈ t'.consumers, c ∈ t.consumers ∨ (c = id ∧ t'.id ∈ deps) := by
   induction deps generalizing ts with
@@ -68,7 +68,7 @@ theorem addNewTasks_spec (nts : List NewTask) (s s' : State) (r r' : List TaskId
     exact ⟨hcj, rfl, by simp, fun t ht => .inl ⟨t, ht, rfl, rfl⟩⟩
   | cons nt rest ih =>
     simp only [State.addNewTasks] at h
-    have hreg := registerDeps_spec nt.id nt.deps s.tasks
+    have hreg := registerDeps_specSys nt.id nt.deps s.tasks
     have hids := registerDeps_ids nt.deps s.tasks nt.id
     generalize registerDeps s.tasks nt.id nt.deps = reg at h hreg hids
     obtain ⟨ts, kept, n⟩ := reg
